@@ -15,13 +15,14 @@ VARIABLES mods,         \* configured modules
           wrong,        \* set of <<user, target>> edges whose target has the wrong base class
           fail,         \* [mods -> FailKinds] scripted failure: earlyInit / initModule raises, the constructor raises (any
                         \* exception / a configuration error: the module never exists), a hook forgets its super call
-          polls, writes,\* subsets of mods: has a poll thread of its own / has configured values to write
+          polls, writes,\* subsets of mods: is polled / has configured values to write
+          host,         \* [mods -> mods] the module whose poll thread serves m: m itself, or the module it is attached to as `io`
           phase,        \* [mods -> "absent","created","early","inited","started"]
           written, polled, cbdone,     \* subsets of mods
           state,        \* "starting" | "ready" | "refused" | "stopping" | "down"
           stopped, joined, shut        \* subsets of mods
-cfgvars == <<mods, att, wrong, fail, polls, writes>>
-vars == <<mods, att, wrong, fail, polls, writes, phase, written, polled, cbdone, state, stopped, joined, shut>>
+cfgvars == <<mods, att, wrong, fail, polls, writes, host>>
+vars == <<mods, att, wrong, fail, polls, writes, host, phase, written, polled, cbdone, state, stopped, joined, shut>>
 
 FailKinds == {"none", "early", "init", "create", "createcfg", "nosuper_early", "nosuper_init"}
 Rank(p) == CASE p = "absent" -> 0 [] p = "created" -> 1 [] p = "early" -> 2 [] p = "inited" -> 3 [] p = "started" -> 4
@@ -39,6 +40,7 @@ Init == /\ mods \in (SUBSET Names) \ {{}}
         /\ wrong \in SUBSET {e \in mods \X mods : e[2] \in att[e[1]]}
         /\ fail \in [mods -> FailKinds]
         /\ polls \in SUBSET mods /\ writes \in SUBSET mods      \* an unpolled module with configured values still gets a thread for writing them
+        /\ host \in [mods -> mods] /\ (\A m \in mods : host[m] = m \/ host[m] \in att[m])
         /\ phase = [m \in mods |-> "absent"]
         /\ written = {} /\ polled = {} /\ cbdone = {} /\ state = "starting"
         /\ stopped = {} /\ joined = {} /\ shut = {}
@@ -56,21 +58,22 @@ StartModule(m) == /\ Step(m, "inited", "started")
 AttachSeen(u, t) == /\ t \in mods /\ Rank(phase[t]) >= 3 /\ UNCHANGED vars
 
 Write(m) == /\ m \in writes /\ m \notin written /\ m \notin polled        \* exactly once, before the first poll
-            /\ phase[m] = "started" /\ state = "starting"
+            /\ phase[host[m]] = "started" /\ Rank(phase[m]) >= 3 /\ state = "starting"      \* in the thread of its host
             /\ written' = written \cup {m}
             /\ UNCHANGED <<cfgvars, phase, polled, cbdone, state, stopped, joined, shut>>
-FirstPoll(m) == /\ m \in polls /\ phase[m] = "started" /\ (m \in writes => m \in written)
+FirstPoll(m) == /\ m \in polls /\ phase[host[m]] = "started" /\ Rank(phase[m]) >= 3 /\ (m \in writes => m \in written)
                 /\ polled' = polled \cup {m}
                 /\ UNCHANGED <<cfgvars, phase, written, cbdone, state, stopped, joined, shut>>
-StartedCb(m) == /\ m \in polls \cup writes /\ m \notin cbdone /\ phase[m] = "started"
-                /\ (m \in writes => m \in written)            \* the first round starts with the configured writes
+Owners == {host[m] : m \in polls \cup writes}                 \* the modules that run a poll thread
+StartedCb(m) == /\ m \in Owners /\ m \notin cbdone /\ phase[m] = "started"
+                /\ \A n \in writes : host[n] = m => n \in written   \* the first round starts with the configured writes
                 /\ cbdone' = cbdone \cup {m}
                 /\ UNCHANGED <<cfgvars, phase, written, polled, state, stopped, joined, shut>>
 
 (* the node reports ready: healthy configuration, everything started, every poll thread through its first round *)
 Ready == /\ state = "starting" /\ Healthy
          /\ \A m \in mods : phase[m] = "started"
-         /\ (polls \cup writes) \subseteq cbdone
+         /\ Owners \subseteq cbdone
          /\ state' = "ready"
          /\ UNCHANGED <<cfgvars, phase, written, polled, cbdone, stopped, joined, shut>>
 (* an unhealthy configuration is refused: no module was started, nothing written to hardware *)
